@@ -50,6 +50,8 @@ pub struct MFile {
     pub clean: bool,
     /// initial chain of an untouched file
     pub init_chain: Vec<u32>,
+    /// a flush or close of this file returned success and it has not been modified since (C09)
+    pub durable: bool,
 }
 
 #[derive(Clone, Debug)]
@@ -254,6 +256,7 @@ impl<'a> World<'a> {
                                 loc: (e.block, e.off),
                                 clean: true,
                                 init_chain: chain,
+                                durable: false,
                             }),
                         );
                     }
